@@ -83,6 +83,15 @@ theorem nodup_keys_upsert {k : Nat} {v : α} {l : List (Nat × α)} (h : (keys l
 theorem lookup_upsert_self {k : Nat} {v : α} {l : List (Nat × α)} : (lookup k (upsert k v l)).isSome = true := by
   rw [lookup_isSome_iff, keys_upsert]; exact Or.inl rfl
 
+/-- `d[k] = v; d[k]` -/
+theorem lookup_upsert_val {k : Nat} {v : α} {l : List (Nat × α)} : lookup k (upsert k v l) = some v := by
+  induction l with
+  | nil => simp [upsert, lookup]
+  | cons p l ih =>
+    by_cases h : p.1 = k
+    · simp [upsert, lookup, h]
+    · simp [upsert, lookup, h, ih]
+
 theorem length_keys {l : List (Nat × α)} : (keys l).length = l.length := by simp [keys]
 
 /-- pigeonhole: a duplicate-free list inside a list that is not longer contains all of it -/
@@ -145,6 +154,14 @@ theorem regInv_invalidate (c : Cache) : RegInv c.invalidate := by
 
 theorem regInv_empty (fs : List Func) : RegInv { funcs := fs } := by simp [RegInv, keys]
 
+/-- with the default tolerances `math.isclose(v, 0.0)` is the exact test `v == 0` -/
+theorem isCloseZero_eq (v : Nat) : isCloseZero v = (v == 0) := by
+  cases v with
+  | zero => rfl
+  | succ n =>
+    have h : ¬ ((n + 1) * 1000000000 ≤ n + 1) := by omega
+    simp [isCloseZero, h]
+
 theorem store_fresh {S : Sem R} (hS : S.Consistent) {c : Cache} {r : R} (h : CacheFresh S c r) (k : Kind) (f : Func) :
     CacheFresh S (c.store S k f r) r := by
   obtain ⟨h1, h2, h3⟩ := h
@@ -154,7 +171,7 @@ theorem store_fresh {S : Sem R} (hS : S.Consistent) {c : Cache} {r : R} (h : Cac
       · simp [e]
       · exact h1 p e
     · intro p hp; rcases mem_upsert hp with e | e
-      · simp [e, hS f r]
+      · simp [e, hS f r, isCloseZero_eq]
       · exact h2 p e
   · refine ⟨h1, ?_, h3⟩
     intro p hp; rcases mem_upsert hp with e | e
